@@ -1,5 +1,6 @@
 import Spine.TeardownKeys
 import Spine.TeardownServe
+import Spine.TeardownKeysPend
 open Spine Spine.TdK
 /-! Line protocol for the identity-key teardown model `Spine.TdK` (C10). One op per line, one answer per line.
     `facts sss bbb ddd eee` — what RemoveSubscriptionsForEntity / RemoveBindingsForEntity / CleanRemoteDeviceCaches /
@@ -73,9 +74,38 @@ def parseCls : String → Option Disp.Cls
 
 structure DS where
   F : Facts
-  s : St
+  p : PSt
   n : Nat
   x : TdS.Ctx
+
+def DS.s (D : DS) : St := D.p.s
+
+def showPend (x : Pend) : String := s!"{x.ski}#{x.epoch}:{x.ctr}:{showEnt x.ent}/{x.cFeat}>{showEnt x.srv.1}/{x.srv.2}"
+
+/-- PENDING WRITE APPROVALS (`Spine/TeardownKeysPend.lean`): `connect` / `drop` / `dropent` run the extended steps;
+    `pwrite k ctr ent cf sEnt sFeat` is a write of connection k to a server feature with an approval callback (answer:
+    `pending <epoch>` or `denied`), `verdict k epoch ctr sEnt sFeat` the application's verdict for the message of that
+    connection epoch (answer: `taken` / `ignored`), `pends` the pending approvals with their keys. -/
+def pendOp (F : Facts) (p : PSt) (ws : List String) : Option (PSt × String) :=
+  match ws with
+  | ["connect", k, d, es] => match nats [k, d] with
+    | some [k, d] =>
+      if (forSki p.s k).isSome then some (p, "dup") else some (pconnect p ⟨k, d, (es.splitOn ",").map parseEnt⟩, "ok")
+    | _ => none
+  | ["drop", k] => k.toNat?.map fun k => let r := pdrop F p k; (r.1, showSet (r.2.map showEv))
+  | ["dropent", k, e] => k.toNat?.map fun k => let r := pdropEntity F p k (parseEnt e); (r.1, showSet (r.2.map showEv))
+  | ["pwrite", k, ctr, e, cf, se, sf] => match nats [k, ctr, cf, sf] with
+    | some [k, ctr, cf, sf] =>
+      let r := pwrite p k ctr (parseEnt e) cf (parseEnt se, sf)
+      some (r.1, if r.2 then s!"pending {epochOf p k}" else "denied")
+    | _ => none
+  | ["verdict", k, ep, ctr, se, sf] => match nats [k, ep, ctr, sf] with
+    | some [k, ep, ctr, sf] =>
+      let r := presolve p k ep ctr (parseEnt se, sf)
+      some (r.1, if r.2 then "taken" else "ignored")
+    | _ => none
+  | ["pends"] => some (p, showSet (p.pends.map showPend))
+  | _ => none
 
 def serveOp (D : DS) (ws : List String) : Option (DS × String) :=
   match ws with
@@ -96,7 +126,7 @@ def serveOp (D : DS) (ws : List String) : Option (DS × String) :=
       let c : Disp.Call := if kind == "bind" then .bind (parseEnt ce, cf) (parseEnt se, sf) typ else .sub (parseEnt ce, cf) (parseEnt se, sf) typ
       let r := TdS.serveCall D.x D.s q ctr (ack == 1) c
       let s' := if r.1 then addEntry D.s (kind == "bind") (D.n + 1) q (parseEnt ce) cf (parseEnt se) sf else D.s
-      some ({ D with s := s', n := D.n + 1 }, showOuts r.2)
+      some ({ D with p := { D.p with s := s' }, n := D.n + 1 }, showOuts r.2)
     | _ => none
   | _ => none
 
@@ -150,12 +180,19 @@ partial def loop (h out : IO.FS.Stream) (D : DS) : IO Unit := do
     out.flush
     loop h out D'
   | none =>
-    let (F', s', n', ans) := answer D.F D.s D.n ws
-    out.putStrLn ans
-    out.flush
-    -- `reset` empties the world; the data of the local features starts afresh with it (the context's shape stays)
-    let x' := if ws == ["reset"] then { D.x with data := fun _ _ => 0, snd := fun _ => (0, []) } else D.x
-    loop h out { F := F', s := s', n := n', x := x' }
+    match pendOp D.F D.p ws with
+    | some (p', ans) =>
+      out.putStrLn ans
+      out.flush
+      loop h out { D with p := p' }
+    | none =>
+      let (F', s', n', ans) := answer D.F D.s D.n ws
+      out.putStrLn ans
+      out.flush
+      -- `reset` empties the world; the data of the local features starts afresh with it (the context's shape stays)
+      if ws == ["reset"] then
+        loop h out { F := F', p := { s := s' }, n := n', x := { D.x with data := fun _ _ => 0, snd := fun _ => (0, []) } }
+      else loop h out { F := F', p := { D.p with s := s' }, n := n', x := D.x }
 
 def main : IO Unit := do
-  loop (← IO.getStdin) (← IO.getStdout) { F := Facts.head, s := { conns := [] }, n := 0, x := mkCtx 0 0 [] [1, 1, 1, 1] 2 }
+  loop (← IO.getStdin) (← IO.getStdout) { F := Facts.head, p := { s := { conns := [] } }, n := 0, x := mkCtx 0 0 [] [1, 1, 1, 1] 2 }
